@@ -1424,12 +1424,13 @@ func compileTableExpr(context *funcContext, reg int, ex *ast.TableExpr, ec *expc
 			if field.Key != nil {
 				line = field.Key
 			}
+			batch := c
 			if c > 511 {
 				c = 0
 			}
 			code.AddABC(OP_SETLIST, tablereg, b, c, sline(line))
 			if c == 0 {
-				code.Add(uint32(c), sline(line))
+				code.Add(uint32(batch), sline(line))
 			}
 		}
 	}
@@ -1864,6 +1865,10 @@ func patchCode(context *funcContext) { // {{{
 				context.Code.SetC(pc-moven, intMin(moven-1, opMaxArgsC))
 			}
 			moven = 0
+		}
+		if curop == OP_SETLIST && opGetArgC(inst) == 0 {
+			// the next word is the batch number of an extended SETLIST, not an instruction
+			pc++
 		}
 	}
 	maxreg++
